@@ -58,3 +58,27 @@ package opentype
 //@   assert_at call PutUint32#1 : [log2-brackets] pow2(int(log2)) <= nTables && nTables < pow2(int(log2)+1)
 //@   assert_at call PutUint32#1 : [search-range] searchRange == float64(16*pow2(int(log2))) && 16 <= searchRange && searchRange <= 16*float64(nTables)
 //@   assert_at call PutUint32#1 : [range-shift] rangeShift == 16*nTables - 16*pow2(int(log2)) && 0 <= rangeShift && rangeShift < 65536
+//
+// WriteTTF ("Writing does not modify the caller's buffers"; directory entries describe the bodies): the function only
+// writes into memory it allocates itself; the result holds the 12-byte header, 16 bytes per table and the bodies.
+//@ spec sumLen(ts []Table, k int) int = ite(k <= 0, 0, sumLen(ts, k-1) + len(ts[k-1].Content))
+//@ spec dirEntryOK(b []byte, ts []Table, k int) bool = be32(b, 12+16*k) == int(ts[k].Tag) && be32(b, 12+16*k+8) == 12 + 16*len(ts) + sumLen(ts, k) && be32(b, 12+16*k+12) == len(ts[k].Content)
+//@ func WriteTTF C19
+//@   mode int
+//@   requires [n] 1 <= len(tables) && len(tables) < 4096
+//@   requires [size] forall(k, 0, len(tables)+1, 12 + 16*len(tables) + sumLen(tables, k) < 4294967296)
+//@   requires [each-fits] forall(k, 0, len(tables), len(tables[k].Content) < 4294967296)
+//@   ensures [fresh-result] fresh(result)
+//@   ensures [length] len(result) == 12 + 16*len(tables) + sumLen(tables, len(tables))
+//@   ensures [directory] forall(k, 0, len(tables), dirEntryOK(result, tables, k))
+//@   modifies nothing
+//@   loop 1 invariant [buffer] fresh(buffer) && len(buffer) == 12 + 16*len(tables) && int(introLength) == 12 + 16*len(tables)
+//@   loop 1 invariant [offset] int(tableOffset) == 12 + 16*len(tables) + sumLen(tables, rangeindex+1) && sumLen(tables, rangeindex+1) >= 0
+//@   loop 1 invariant [tags-so-far] forall(k, 0, rangeindex+1, be32(buffer, 12+16*k) == int(tables[k].Tag))
+//@   loop 1 invariant [offsets-so-far] forall(k, 0, rangeindex+1, be32(buffer, 12+16*k+8) == 12 + 16*len(tables) + sumLen(tables, k))
+//@   loop 1 invariant [lengths-so-far] forall(k, 0, rangeindex+1, be32(buffer, 12+16*k+12) == len(tables[k].Content))
+//@   loop 1 invariant [prefix-monotone] forall(k, 0, rangeindex+2, sumLen(tables, k) <= sumLen(tables, rangeindex+1))
+//@   loop 2 invariant [buffer] fresh(buffer) && len(buffer) == 12 + 16*len(tables) + sumLen(tables, len(tables)) && int(introLength) == 12 + 16*len(tables)
+//@   loop 2 invariant [offset] int(tableOffset) == 12 + 16*len(tables) + sumLen(tables, rangeindex+1) && sumLen(tables, rangeindex+1) >= 0
+//@   loop 2 invariant [directory] forall(k, 0, len(tables), dirEntryOK(buffer, tables, k))
+//@   loop 2 invariant [prefix-monotone] forall(k, 0, len(tables)+1, sumLen(tables, k) <= sumLen(tables, len(tables)))
